@@ -79,7 +79,18 @@ POOL = [
     ("'{a#12}'", lambda s: V.ValueString("{a#12}")),
     ("<*_str_ = 5*>", lambda s: core.to_value(("obj", [("_str_", 5)]))),
     ("<*a = 1, _proto_ = itself*>", lambda s: _selfproto()),
+    # an instance of such an object (the cycle does not contain it), and a
+    # list that contains itself
+    ("<*_proto_ = cyclic*>", lambda s: core.to_value(("obj", [])).addItem(
+        "_proto_", _selfproto())),
+    ("[1, itself]", lambda s: _selflist()),
 ]
+def _selflist():
+    lst = core.to_value([1])
+    lst.addItem(lst)
+    return lst
+
+
 def _selfproto():
     o = core.to_value(("obj", [("a", 1)]))
     o.addItem("_proto_", o)
